@@ -1007,6 +1007,70 @@ func (x *oracle) readerBesideWriter() {
 	}
 }
 
+// queriesBesideWriter (a quarter of the C01 / C13 plans): the same
+// arrangement for the balance, the spendable list and the history - another
+// caller reads them in a transaction of its own before a write transaction
+// begins and between its last write and its commit. Both readings are of the
+// last commit and must agree; the ordinary oracles after the operation then
+// decide whether what was committed is what everybody sees from now on.
+func (x *oracle) queriesBesideWriter() {
+	read := func(h int32) (string, error) {
+		var fp string
+		err := x.st.view(func(ns walletdb.ReadBucket) error {
+			if x.prop == "C01" {
+				b0, err := x.st.s.Balance(ns, 0, h)
+				if err != nil {
+					return err
+				}
+				b1, err := x.st.s.Balance(ns, 1, h)
+				if err != nil {
+					return err
+				}
+				us, err := x.st.s.UnspentOutputs(ns)
+				if err != nil {
+					return err
+				}
+				var sum int64
+				for _, u := range us {
+					sum += int64(u.Amount)*31 + int64(u.Height)
+				}
+				fp = fmt.Sprintf("balance0=%d balance1=%d unspent=%d/%d", b0, b1, len(us), sum)
+				return nil
+			}
+			n, unmined := 0, 0
+			err := x.st.s.RangeTransactions(ns, 0, -1, func(ds []wtxmgr.TxDetails) (bool, error) {
+				for i := range ds {
+					n++
+					if ds[i].Block.Height < 0 {
+						unmined++
+					}
+				}
+				return false, nil
+			})
+			fp = fmt.Sprintf("transactions=%d unconfirmed=%d", n, unmined)
+			return err
+		})
+		return fp, err
+	}
+	var before string
+	var berr error
+	var height int32 // the sync height both readings are made for
+	x.st.pre = func() { height = x.w.tip; before, berr = read(height) }
+	x.st.mid = func() {
+		if x.env.Failed() || berr != nil {
+			return
+		}
+		x.env.Count("probe.reader-between-write-and-commit")
+		got, err := read(height)
+		if x.qerr("View", err) {
+			return
+		}
+		if got != before {
+			x.failf("isolation:reader-beside-open-writer", "a read transaction opened before the writer's commit answers %s; as of the last commit it was %s (during %s)", got, before, x.w.last)
+		}
+	}
+}
+
 // graphProbes counts the shapes of a transaction set that C14 singles out.
 func (x *oracle) graphProbes(set []*wire.MsgTx, suffix string) {
 	in := map[chainhash.Hash]*wire.MsgTx{}
